@@ -416,16 +416,61 @@ Proof. destruct fa; reflexivity. Qed.
 Lemma Forall_app_r {A} (Q : A -> Prop) a b : Forall Q (a ++ b) -> Forall Q b.
 Proof. intros H. apply Forall_app in H. tauto. Qed.
 
+Lemma act_lib_eq a r : is_inexpressible a = false -> act_lib a r = act a r.
+Proof. unfold act_lib. intros ->. reflexivity. Qed.
+
+(* the four inexpressible parameters are exactly those the model ignores *)
+Definition inexpr_check (v : N) : bool :=
+  negb (is_inexpressible (simple_action v)) || is_colour_code v || action_eqb (mcls v) ANop.
+Lemma inexpr_check_sweep : sweep1 128 inexpr_check = true.
+Proof. vm_compute. reflexivity. Qed.
+
+Lemma simple_lib v acc r :
+  is_colour_code v = false ->
+  rapply (mupd (mcls v) acc) r = act_lib (simple_action v) (rapply acc r).
+Proof.
+  intros Hc. destruct (is_inexpressible (simple_action v)) eqn:Hx.
+  - unfold act_lib. rewrite Hx.
+    assert (Hv : v < 128).
+    { destruct (N.ltb_spec v 128) as [Hv|Hv]; [exact Hv|]. exfalso.
+      unfold simple_action in Hx.
+      repeat match type of Hx with
+             | context [v =? ?k] => replace (v =? k) with false in Hx by (symmetry; apply N.eqb_neq; lia)
+             | context [v <=? ?k] => replace (v <=? k) with false in Hx by (symmetry; apply N.leb_gt; lia)
+             end.
+      rewrite !andb_false_r in Hx. discriminate. }
+    pose proof (sweep1_sound 128 _ inexpr_check_sweep v Hv) as H. unfold inexpr_check in H.
+    rewrite Hx, Hc in H. cbn [negb orb] in H. apply action_eqb_eq in H. rewrite H. reflexivity.
+  - rewrite (mcls_simple v Hc Hx), mupd_sem by exact Hx. rewrite act_lib_eq by exact Hx. reflexivity.
+Qed.
+
+Lemma colour_action_expressible v c : is_inexpressible (colour_action v c) = false.
+Proof.
+  unfold colour_action. destruct c as [c|]; [|reflexivity].
+  destruct (v =? 38); [reflexivity|]. destruct (v =? 48); reflexivity.
+Qed.
+
+Lemma colon_action_expressible v subs : is_inexpressible (colon_action v subs) = false.
+Proof.
+  unfold colon_action. destruct (v =? 4).
+  - destruct subs as [|[k| |] [|? ?]]; try reflexivity.
+    repeat match goal with |- context [if ?c then _ else _] => destruct c end; reflexivity.
+  - destruct (is_colour_code v); [|reflexivity].
+    destruct subs as [|k [|n [|g [|b [|b2 [|? ?]]]]]]; try reflexivity.
+    + destruct (is_five k); [apply colour_action_expressible| reflexivity].
+    + destruct (is_two k); [apply colour_action_expressible| reflexivity].
+    + destruct (is_two k); [|reflexivity]. destruct (pval n); [apply colour_action_expressible| reflexivity].
+Qed.
+
 (* ---- the loop ---- *)
 Lemma loop_sem : forall n groups acc f fa,
   (length groups <= n)%nat -> (length groups < f)%nat -> (length groups <= fa)%nat ->
   Forall group_ok groups ->
   existsb is_malformed (actions fa (map P groups)) = false ->
-  existsb is_inexpressible (actions fa (map P groups)) = false ->
   exists m, sgr_loop f groups acc = Some m
-            /\ forall r, rapply m r = fold_left (fun r a => act a r) (actions fa (map P groups)) (rapply acc r).
+            /\ forall r, rapply m r = fold_left (fun r a => act_lib a r) (actions fa (map P groups)) (rapply acc r).
 Proof.
-  induction n as [|n IH]; intros groups acc f fa Hn Hf Hfa Hok Hmal Hinx.
+  induction n as [|n IH]; intros groups acc f fa Hn Hf Hfa Hok Hmal.
   - destruct groups; [|cbn in Hn; lia]. destruct f; [lia|]. exists acc. rewrite actions_nil. split; reflexivity.
   - destruct groups as [|g rest].
     { destruct f; [lia|]. exists acc. rewrite actions_nil. split; reflexivity. }
@@ -440,8 +485,8 @@ Proof.
       rewrite (pval_digits g Hdg) in *. set (v := dec_value g) in *.
       destruct (is_colour_code v) eqn:Ecc.
       * destruct (semicolon_colour v (map P rest)) as [[a ps']|] eqn:Esemi; [|discriminate].
-        cbn [existsb] in Hmal, Hinx. apply orb_false_iff in Hmal, Hinx.
-        destruct Hmal as [Hma Hmal]. destruct Hinx as [Hxa Hinx].
+        cbn [existsb] in Hmal. apply orb_false_iff in Hmal.
+        destruct Hmal as [Hma Hmal].
         destruct (semi_sem v rest a ps' Hrest Esemi Hma) as (col & rest' & pre & Hcol & Hsplit' & Hpre & -> & ->).
         rewrite (step_colour_semi g rest acc v Hsplit (nd_digits g Hdg) Ecc), Hcol. cbn [fst snd].
         assert (Hlen : (length rest' < length rest)%nat).
@@ -449,21 +494,21 @@ Proof.
         destruct (IH rest' (mupd_color v (Some col) acc) f fa) as (m & Hm1 & Hm2); try lia; try assumption.
         { rewrite Hsplit' in Hrest. eapply Forall_app_r, Hrest. }
         exists m. split; [exact Hm1|]. intros r. rewrite Hm2. cbn [fold_left].
-        rewrite mupd_color_sem by exact Ecc. reflexivity.
-      * cbn [existsb] in Hmal, Hinx. apply orb_false_iff in Hmal, Hinx.
-        destruct Hmal as [Hma Hmal]. destruct Hinx as [Hxa Hinx].
+        rewrite mupd_color_sem by exact Ecc. rewrite act_lib_eq by apply colour_action_expressible. reflexivity.
+      * cbn [existsb] in Hmal. apply orb_false_iff in Hmal.
+        destruct Hmal as [Hma Hmal].
         rewrite (step_simple g rest acc v Hsplit (nd_digits g Hdg) Ecc).
         destruct (IH rest (mupd (mcls v) acc) f fa) as (m & Hm1 & Hm2); try lia; try assumption.
         exists m. split; [exact Hm1|]. intros r. rewrite Hm2. cbn [fold_left].
-        rewrite (mcls_simple v Ecc Hxa), mupd_sem by exact Hxa. reflexivity.
+        rewrite simple_lib by exact Ecc. reflexivity.
     + (* sub-parameters *)
       unfold P in EP. destruct (split_on 58 g) as [|first [|a1 args]] eqn:Esplit; try discriminate.
       cbn [map] in EP. inversion EP as [[Hx Hs Hsubs]]. clear EP.
       inversion Hpieces as [|? ? Hdf Hdargs]; subst.
       rewrite (pval_digits first Hdf) in *. set (v := dec_value first) in *.
       change (pnum_of a1 :: map pnum_of args) with (map pnum_of (a1 :: args)) in *.
-      cbn [existsb] in Hmal, Hinx. apply orb_false_iff in Hmal, Hinx.
-      destruct Hmal as [Hma Hmal]. destruct Hinx as [Hxa Hinx].
+      cbn [existsb] in Hmal. apply orb_false_iff in Hmal.
+      destruct Hmal as [Hma Hmal].
       destruct (colon_action_codes _ _ Hma) as [E4|Ecc].
       * fold v in E4. rewrite E4 in *.
         rewrite (step_colon_4 g rest acc first a1 args Esplit).
@@ -473,25 +518,46 @@ Proof.
         rewrite (colon_4_sem a1 args Hdargs Hma).
         change (set_underline (Some (sub_style (number_decode a1))) acc)
           with (mupd (AUnderline (sub_style (number_decode a1))) acc).
-        rewrite mupd_sem by reflexivity. reflexivity.
+        rewrite mupd_sem by reflexivity. rewrite <- (colon_4_sem a1 args Hdargs Hma).
+        rewrite act_lib_eq by apply colon_action_expressible. rewrite (colon_4_sem a1 args Hdargs Hma). reflexivity.
       * destruct (colon_colour_sem v a1 args Ecc Hdargs Hma) as (col & Hcol & Hact).
         rewrite (step_colon_colour g rest acc first a1 args v Esplit (nd_digits first Hdf) Ecc), Hcol.
         destruct (IH rest (mupd_color v (Some col) acc) f fa) as (m & Hm1 & Hm2); try lia; try assumption.
         exists m. split; [exact Hm1|]. intros r. rewrite Hm2. cbn [fold_left].
-        rewrite Hact, mupd_color_sem by exact Ecc. reflexivity.
+        rewrite Hact, mupd_color_sem by exact Ecc. rewrite act_lib_eq by apply colour_action_expressible. reflexivity.
 Qed.
 
-(* sgr_face + the meaning of a modification record = the reference machine *)
-Theorem sgr_face_sem params :
-  sgr_wf params = true -> sgr_inexpressible params = false ->
-  exists m, sgr_face params = Some m /\ forall r, rapply m r = ref_sgr params r.
+(* sgr_face + the meaning of a modification record = the library's recorded machine, on EVERY
+   well-formed parameter string *)
+Theorem sgr_face_sem_lib params :
+  sgr_wf params = true ->
+  exists m, sgr_face params = Some m /\ forall r, rapply m r = ref_sgr_lib params r.
 Proof.
-  unfold sgr_wf, sgr_inexpressible, ref_sgr, sgr_actions, sgr_face.
-  rewrite parse_params_eq, map_length. intros Hwf Hinx.
+  unfold sgr_wf, ref_sgr_lib, sgr_actions, sgr_face.
+  rewrite parse_params_eq, map_length. intros Hwf.
   rewrite !andb_true_iff in Hwf. destruct Hwf as [[Hbytes _] Hmal]. apply negb_true_iff in Hmal.
   destruct (loop_sem (length (split_on 59 params)) (split_on 59 params) fm_default
               (S (length (split_on 59 params))) (length (split_on 59 params)))
     as (m & Hm1 & Hm2); try lia; try assumption.
   { apply groups_ok, Hbytes. }
   exists m. split; [exact Hm1|]. intros r. rewrite Hm2, rapply_default. reflexivity.
+Qed.
+
+Lemma fold_act_lib_eq l : existsb is_inexpressible l = false ->
+  forall r, fold_left (fun r a => act_lib a r) l r = fold_left (fun r a => act a r) l r.
+Proof.
+  induction l as [|a l IH]; intros H r; [reflexivity|]. cbn [existsb] in H. apply orb_false_iff in H. destruct H as [Ha Hl].
+  cbn [fold_left]. rewrite act_lib_eq by exact Ha. apply IH, Hl.
+Qed.
+
+Lemma ref_sgr_lib_eq params r : sgr_inexpressible params = false -> ref_sgr_lib params r = ref_sgr params r.
+Proof. unfold sgr_inexpressible, ref_sgr_lib, ref_sgr. intros H. apply fold_act_lib_eq, H. Qed.
+
+(* ... and the reference SGR machine itself whenever no inexpressible parameter occurs *)
+Theorem sgr_face_sem params :
+  sgr_wf params = true -> sgr_inexpressible params = false ->
+  exists m, sgr_face params = Some m /\ forall r, rapply m r = ref_sgr params r.
+Proof.
+  intros Hwf Hx. destruct (sgr_face_sem_lib params Hwf) as (m & Hm & Hsem). exists m. split; [exact Hm|].
+  intros r. rewrite Hsem. apply ref_sgr_lib_eq, Hx.
 Qed.
